@@ -127,3 +127,10 @@ package phase3
 //@   requires[|C01] p != nil && n != nil && posOK(p)
 //@   requires[|C01] forall k int :: 0 <= k && k < len(edges) ==> edges[k] != nil && edges[k].From != nil && edges[k].To != nil
 //@       && has(p.positions, edges[k].From) && has(p.positions, edges[k].To)
+
+// wmedianRun (C12): the order handed back with the best crossing count is a snapshot - a map of its own, never the
+// live position map that later sweeps keep rewriting (so count and order stay a matched pair).
+//@ func wmedianRun
+//@   assert[snapshot|C12] before "return bestx, bestp" : bestp != nil && p != nil && bestp != p.positions
+//@   loop for(i<params.maxiter)#1
+//@     invariant[|C12] p != nil && bestp != nil && bestp != p.positions && p.positions == loopold(p.positions)
